@@ -8,6 +8,7 @@ import (
 	"sync"
 
 	"github.com/thanos-community/promql-engine/execution/model"
+	"github.com/thanos-community/promql-engine/verifhook"
 )
 
 type doneFunc func()
@@ -60,14 +61,18 @@ func New(workerID int, task Task) *Worker {
 }
 
 func (w *Worker) start(done doneFunc, ctx context.Context) {
+	defer verifhook.Go("worker", w.workerID)()
 	w.ctx = ctx
 	done()
 	for {
+		w.verifPreSelect()
 		select {
 		case <-w.ctx.Done():
+			verifhook.Yield("worker.done")
 			close(w.output)
 			return
 		case task, ok := <-w.input:
+			verifhook.Yield("worker.task")
 			if !ok {
 				return
 			}
@@ -77,6 +82,7 @@ func (w *Worker) start(done doneFunc, ctx context.Context) {
 }
 
 func (w *Worker) Send(arg float64, in model.StepVector) error {
+	verifhook.Yield("worker.send")
 	select {
 	case <-w.ctx.Done():
 		close(w.input)
@@ -88,6 +94,7 @@ func (w *Worker) Send(arg float64, in model.StepVector) error {
 }
 
 func (w *Worker) GetOutput() (model.StepVector, error) {
+	verifhook.Yield("worker.getout")
 	select {
 	case <-w.ctx.Done():
 		return model.StepVector{}, w.ctx.Err()
